@@ -121,6 +121,15 @@ async fn wait_idle(storage: &StorageSystem, max: Duration) -> bool {
     false
 }
 
+/// The publication server refused a delta because the CA's picture of what
+/// it has published there was out of date: two synchronisations of one CA
+/// with its repository ran at the same time (list, compute delta, send are
+/// not one step).
+fn racing_publication(err: &str) -> bool {
+    err.contains("File already exists for uri")
+        || err.contains("File does not match hash at uri")
+}
+
 /// Thread states of this process, the calling thread left out: (state, name)
 /// per thread and the CPU ticks (user + system) used by all of them so far.
 fn thread_states() -> (Vec<(String, String)>, u64) {
@@ -227,6 +236,17 @@ async fn round(
         "signature": "process-exit-in-concurrent-round",
     }));
     if let Err(e) = manager.cas_import(structure()).await {
+        let e = e.to_string();
+        if racing_publication(&e) {
+            // the import's own repository synchronisation of a CA raced with
+            // the scheduler's synchronisation of the same CA
+            r.violation(
+                "answer-not-explainable:racing-repository-synchronisations-of-one-ca",
+                &format!("bulk import answered with an error no serial order \
+                          explains: {e}"),
+                json!({"case": case, "memory": memory, "operation": "import"}));
+            return None
+        }
         r.inconclusive(format!("import: {e}"));
         let _ = tokio::task::spawn_blocking(move || pool.terminate()).await;
         return None
@@ -428,6 +448,16 @@ async fn round(
     // ---- answers as in some serial execution --------------------------------
     for x in &recs {
         r.count("answers_checked", 1);
+        if x.kind == "sync_repo" && !x.ok {
+            r.distinct("sync_repo_errors",
+                       x.err.chars().take(60).collect::<String>());
+            if racing_publication(&x.err) {
+                // recorded, and the round goes on (a known finding)
+                r.violation(
+                    "answer-not-explainable:racing-repository-synchronisations-of-one-ca",
+                    &format!("{x:?}"), wit(json!({})));
+            }
+        }
         let bad = match (x.kind.as_str(), x.ok) {
             ("roa_add", false) => {
                 // c1's 10.2/16 may have been taken away by a concurrent
